@@ -52,6 +52,14 @@ def rule_H1(ctx: Ctx) -> None:
     ctx.judge(h, ok and ctx.deps.stable_hash_is_hashlib(), {"returns": X.U(r[0].value) if r else None, "stable_hash_is_hashlib": ctx.deps.stable_hash_is_hashlib()},
               "the hash is a hashlib digest of the JSON text of the *whole* serialized config (no builtin hash(), nothing omitted)",
               "the identity depends on PYTHONHASHSEED or ignores part of the configuration")
+    # option dictionaries are stored as they are (every key, whatever its value)
+    for fname in ("maze_ctor_kwargs", "endpoint_kwargs"):
+        fi = ctx.index.all_fields(ctx.index.cls(CFG))[fname]
+        sfn = fi.kwarg("serialization_fn")
+        ok = sfn is None or (isinstance(sfn, ast.Lambda) and (X.U(sfn.body) == sfn.args.args[0].arg or X.same_expr(sfn.body, f"dict({sfn.args.args[0].arg})", f"{sfn.args.args[0].arg}.copy()")))
+        ctx.judge(fi.owner, ok, {"field": fname, "serialization_fn": X.U(sfn)[:120] if sfn is not None else None},
+                  f"`{fname}` is serialised as the whole dict (identity / a copy): every option that was set is stored, including falsy values",
+                  "options set to a falsy value (False, None, []) vanish on serialization: the reloaded config is unequal, and configs differing only in them share hash and file name")
     # the generator is serialised by name (and reloaded by that name)
     mc = ctx.index.all_fields(ctx.index.cls(CFG))["maze_ctor"]
     sf = mc.kwarg("serialization_fn")
@@ -169,7 +177,7 @@ def rule_H4(ctx: Ctx) -> None:
 
 
 RULES = [
-    Rule("C18.H1", rule_H1, floor=4, doc="identity fields serialised and hashed"),
+    Rule("C18.H1", rule_H1, floor=6, doc="identity fields serialised (whole option dicts) and hashed"),
     Rule("C18.H2", rule_H2, floor=5, doc="loaders"),
     Rule("C18.H3", rule_H3, floor=1, doc="file-name components"),
     Rule("C18.H4", rule_H4, floor=3, doc="collection config"),
